@@ -22,6 +22,7 @@ type Ctx struct {
 	dyn   *dynTyper
 	Stats map[string]int
 	tabd     *tabData
+	immE     *immEngine
 	VerifDir string
 	Seed     int
 }
